@@ -82,8 +82,8 @@ Proof.
     destruct (st_eqb (prev_of q) s) eqn:Es; [|discriminate]. injection Ht as <-.
     assert (Eq : prev_of q = s) by (destruct (prev_of q), s; try discriminate; reflexivity).
     pose proof (cell_opt_R P _ _ _ q Hcell) as H. unfold R in H at 1. rewrite Hr, Eq in H.
-    unfold fwd_val. replace (0 + r0) with r0 by lia. exact H.
-  - unfold fwd_val. destruct (fst (cget (cell_at (table P false xs ys) k j) s)) as [f|] eqn:Ef; [|exact I].
+    unfold fwd_val, fwd_of. replace (0 + r0) with r0 by lia. exact H.
+  - unfold fwd_val, fwd_of. destruct (fst (cget (cell_at (table P false xs ys) k j) s)) as [f|] eqn:Ef; [|exact I].
     destruct (cell_att _ _ _ _ Hcell Ef) as (q0 & Hq0 & Hs).
     specialize (Hopt q0). unfold gscore in Hopt. rewrite rscore_with_end in Hopt. unfold R in Hq0. rewrite Hq0 in Hopt.
     cbn [te with_end] in Hopt. rewrite Hs in Hopt.
@@ -135,7 +135,7 @@ Lemma In_middle_idx P xs ys k j s v :
   In (j, s, v) (middle_idx P xs ys k) <->
   (j <= length ys)%nat /\ v = eplus (fwd_val P xs ys k j s) (bwd_val P xs ys k j s).
 Proof.
-  unfold middle_idx. rewrite in_flat_map. split.
+  unfold middle_idx. cbv zeta. rewrite in_flat_map. split.
   - intros (j' & Hj & Hin). apply in_seq in Hj. apply in_map_iff in Hin. destruct Hin as (s' & E & _).
     injection E as -> -> <-. split; [lia | reflexivity].
   - intros (Hj & ->). exists j. split; [apply in_seq; lia|]. apply in_map_iff. exists s. split; [reflexivity | apply all_states].
